@@ -396,7 +396,7 @@ def abandon_program(rng, ncases, lanes=ALL_LANES, big=False):
         key = add_key(prog, rand_key(rng, c)) if keyed else None
         opts = rand_opts(rng) if rng.random() < 0.3 else {}
         point = rng.choice(["after_open", "after_chunks", "inflight", "after_close", "rejected_size",
-                            "rejected_sri", "after_all"])
+                            "rejected_sri", "after_all", "odd_order"])
         ch = rng.choice(chunkings(rng, n, big))
         w = "w%d" % c
         if point == "rejected_size":
@@ -419,7 +419,27 @@ def abandon_program(rng, ncases, lanes=ALL_LANES, big=False):
         if rng.random() < 0.5:
             prog["steps"].append({"op": "write", "lane": rng.choice(lanes), "key": rng.choice(okkeys),
                                   "data": d_ok, "algo": "sha256"})
-        if point in ("rejected_size", "rejected_sri"):
+        if point == "odd_order":
+            # unusual but legal call orders on the handle: flush before any write, zero-length
+            # writes, repeated flushes, close twice, write / flush / commit after close
+            seq = rng.sample(["flush", "zero", "flush", "close", "close", "zero_v", "write_after"], rng.randrange(2, 6))
+            closed = False
+            for a_ in seq:
+                if a_ == "flush":
+                    prog["steps"].append({"op": "w_flush", "lane": lane, "h": w})
+                elif a_ == "zero":
+                    prog["steps"].append({"op": "w_write", "lane": lane, "h": w, "data": d, "from": 0, "to": 0,
+                                          "all": rng.random() < 0.5})
+                elif a_ == "zero_v":
+                    prog["steps"].append({"op": "w_write", "lane": lane, "h": w, "data": d, "from": 0, "to": 0,
+                                          "vectored": 1})
+                elif a_ == "close" and lane in ("Aa", "Ta"):
+                    prog["steps"].append({"op": "w_close", "lane": lane, "h": w})
+                    closed = True
+                elif a_ == "write_after" and closed:
+                    prog["steps"].append({"op": "w_write", "lane": lane, "h": w, "data": d, "from": 0, "to": min(n, 5)})
+            prog["steps"].append({"op": rng.choice(["w_commit", "h_drop"]), "lane": lane, "h": w})
+        elif point in ("rejected_size", "rejected_sri"):
             prog["steps"].append({"op": "w_commit", "lane": lane, "h": w})
         elif point == "inflight" and lane in ("Aa", "Ta"):
             prog["steps"].append({"op": "h_drop", "lane": lane, "h": w, "inflight": True, "data": d,
@@ -466,6 +486,17 @@ def retrieval_steps(rng, prog, lanes, key, algo, d, xcount, which=None, dest_exi
             else:
                 s["sri"] = sri
             st.append(s)
+            if not big and rng.random() < 0.2:
+                # the handle outlives what happens to the address: content removed by address,
+                # re-published, or replaced behind the library's back after the open - the
+                # descriptor keeps reading the file it opened
+                ev_ = rng.choice(["remove_hash", "rewrite", "replace"])
+                if ev_ == "remove_hash":
+                    st.append({"op": "remove_hash", "lane": rng.choice(lanes), "sri": sri})
+                elif ev_ == "rewrite":
+                    st.append({"op": "write", "lane": rng.choice(lanes), "data": d, "algo": algo})
+                else:
+                    st.append({"op": "env_content", "algo": algo, "blob": d, "mode": "replace", "with": prog["_pre"]})
             # (a one-byte buffer on a megabyte file means a million calls through the runtime:
             # slow enough to trip the watchdog under load, which would be a false alarm)
             bs = rng.choice(BUFSIZES[2:] if big else BUFSIZES)
@@ -896,7 +927,7 @@ def refwrite_program(rng, nrec, lanes=ALL_LANES):
         tomb = rng.random() < 0.2
         meta = rand_json(rng)
         raw = None if rng.random() < 0.6 else [rng.randrange(256) for _ in range(rng.randrange(0, 20))]
-        prog["steps"].append({"op": "env_bucket", "key": k, "mode": "plant",
+        prog["steps"].append({"op": "env_bucket", "key": k, "mode": "plant", "style": rng.randrange(5),
                               "entry": {"key": k, "sri": None if tomb else [{"a": a, "d": d}],
                                         "time": rand_time(rng), "size": rng.choice([rng.randrange(0, 2 ** 31 - 1), 2 ** 53 + 3, 2 ** 64 - 2]),
                                         "metadata": meta, "raw_metadata": raw}})
